@@ -611,32 +611,37 @@ def counting_tables(ctx: Ctx) -> None:
             ok = inner.args and isinstance(inner.args[0], ast.Name) and inner.args[0].id == cs.param_names()[0] and "join_heads_to_tails" not in kwi \
                 and "orphaned_head" not in kwi and "orphaned_tail" not in kwi
     ctx.expect("R-TABLE", cs, "count_steps = count_grouped_notes(group_notes(notes, types, mode), minimum) without joining", bool(ok), "", "", node=cs.node)
-    # count_grouped_notes: sum(len(g) >= minimum for g in groups)
+    # count_grouped_notes / count_mines: a counter incremented exactly under the documented condition, once per element
+    def counter_rule(fn: FunctionInfo, cond_of, title: str, why: str) -> None:
+        from .tables import judge as tjudge, loop_decs, sums_of as tsums, resolved
+        sums = tsums(ctx, fn)
+        it = fn.param_names()[0]
+        loops = {(ast.unparse(e.target), e.line) for s_ in sums for e in s_.effects if e.kind == "for" and ast.unparse(e.value) == it}
+        if len(loops) != 1:
+            raise AnalysisError(f"{fn.fq}: expected one pass over '{it}', found {sorted(loops)}")
+        v, line = next(iter(loops))
+        rets = set()
+        for s_ in sums:
+            k, val = s_.terminal()
+            rets.add(ast.unparse(val) if (k == "return" and val is not None) else k)
+        names = {r for r in rets if r.isidentifier()}
+        zero_ok = rets - names <= {"0"}
+        if len(names) != 1 or not zero_ok:
+            ctx.bad("R-TABLE", fn, title, f"returns {sorted(rets)}: not a single counter", node=fn.node)
+            return
+        n = next(iter(names))
+        init_ok = all((s_.resolve(n, next(i for i, e in enumerate(s_.effects) if e.kind == "for")) or (0, None))[1] is not None and
+                      ast.unparse(s_.resolve(n, next(i for i, e in enumerate(s_.effects) if e.kind == "for"))[1].value) == "0"
+                      for s_ in sums if any(e.kind == "for" for e in s_.effects))
+        cond = cond_of(v)
+        decs = loop_decs(sums, line, [n])
+        ok = tjudge(ctx, "R-TABLE", fn, title, decs, [cond], lambda a: (f"{n} := {n} + 1",) if a[cond] else (), why=why)
+        ctx.expect("R-TABLE", fn, f"{fn.name}: the counter starts at 0", init_ok, "", f"{n} is not initialised to 0 before the loop", node=fn.node)
+
     cg = p.func(f"{mod}:count_grouped_notes")
-    rr = [r for r in body_walk(cg.node) if isinstance(r, ast.Return)]
-    okc = False
-    if len(rr) == 1 and isinstance(rr[0].value, ast.Call) and isinstance(rr[0].value.func, ast.Name) and rr[0].value.func.id == "sum" and len(rr[0].value.args) == 1 \
-            and isinstance(rr[0].value.args[0], ast.GeneratorExp):
-        ge = rr[0].value.args[0]
-        gen = ge.generators[0]
-        v = gen.target.id if isinstance(gen.target, ast.Name) else None
-        e = ge.elt
-        okc = (len(ge.generators) == 1 and not gen.ifs and isinstance(gen.iter, ast.Name) and gen.iter.id == cg.param_names()[0] and isinstance(e, ast.Compare)
-               and len(e.ops) == 1 and ((isinstance(e.ops[0], ast.GtE) and ast.unparse(e.left) == f"len({v})" and ast.unparse(e.comparators[0]) == "same_beat_minimum")
-                                        or (isinstance(e.ops[0], ast.LtE) and ast.unparse(e.comparators[0]) == f"len({v})" and ast.unparse(e.left) == "same_beat_minimum")))
-    ctx.expect("R-TABLE", cg, "a group counts iff it has at least 'same_beat_minimum' notes (>=)", okc, "", f"{src(rr[0].value) if rr else ''}", node=cg.node)
-    # count_mines
+    counter_rule(cg, lambda v: f"len({v}) >= same_beat_minimum", "a group counts iff it has at least 'same_beat_minimum' notes (>=)", "documented: groups of at least same_beat_minimum notes")
     cm = p.func(f"{mod}:count_mines")
-    rr = [r for r in body_walk(cm.node) if isinstance(r, ast.Return)]
-    okm = False
-    if len(rr) == 1 and isinstance(rr[0].value, ast.Call) and isinstance(rr[0].value.func, ast.Name) and rr[0].value.func.id == "sum" and isinstance(rr[0].value.args[0], ast.GeneratorExp):
-        ge = rr[0].value.args[0]
-        gen = ge.generators[0]
-        e = ge.elt
-        okm = (not gen.ifs and isinstance(gen.iter, ast.Name) and gen.iter.id == cm.param_names()[0] and isinstance(e, ast.Compare) and isinstance(e.ops[0], ast.Eq)
-               and isinstance(try_ev(ctx, cm, e.comparators[0]), EnumVal) and try_ev(ctx, cm, e.comparators[0]).name == "MINE"
-               and ast.unparse(e.left) == f"{gen.target.id}.note_type")
-    ctx.expect("R-TABLE", cm, "count_mines counts notes whose type is MINE, singly", okm, "", "", node=cm.node)
+    counter_rule(cm, lambda v: f"{v}.note_type == NoteType.MINE", "count_mines counts notes whose type is MINE, singly", "documented: every MINE note counts once")
     # holds / rolls
     hr = p.func(f"{mod}:_count_holds_or_rolls")
     gc = [c for c in calls(hr) if callee_name(ctx, hr, c) == "simfile.notes.group:group_notes"]
@@ -850,7 +855,7 @@ def grouping_guards(ctx: Ctx) -> None:
     ctx.expect("R-TABLE", j, "a head is closed or interrupted exactly by a tail or by any note in its (held) column", fs in (want, alt), str(fs), f"pairing is attempted under {fs}", node=c)
     a0, a1 = c.args
     hb = [b for b in locals_of(j).b.get(ast.unparse(a0), []) if b.kind == "assign" and in_body(main, b.node)]
-    okh = len(hb) == 1 and ast.unparse(hb[0].value) == f"{held}.pop({n}.column, None)" and ast.unparse(a1) == n
+    okh = ((len(hb) == 1 and ast.unparse(hb[0].value) == f"{held}.pop({n}.column, None)") or ast.unparse(inline(a0, j)) == f"{held}.pop({n}.column, None)") and ast.unparse(a1) == n
     ctx.expect("R-TABLE", j, "the head paired is the one open in the note's own column (and it is no longer held afterwards)", okh, "", "", node=c)
     yf = [x for x in body_walk(j.node) if isinstance(x, ast.YieldFrom) and isinstance(x.value, ast.Call) and callee(ctx, j, x.value) is fu]
     okf = len(yf) == 1 and [(ast.unparse(a), pol) for a, pol in facts(ctx, j, yf[0])] in (want, alt)
